@@ -7,6 +7,7 @@ Line-protocol handlers for area `subset` (C10).
 `subset.check`    D  the property's clauses evaluated directly on the Go result `res=`
 `subset.writable` V  can the subset be written (CFF encoding contiguity) and how many glyphs come back
 `subset.cffrun`   V  (*cff.Outlines).Subset called directly, against the SubsetCFF model
+`subset.encrt`    D  built-in encoding of the subset after Write+Read, code by code, against the property
 `subset.mustwrite` D the property's claim: every subset can be written and read back (known finding replay)
 -/
 namespace SfntV.Drive.Subset
@@ -396,6 +397,20 @@ def handle (op : String) (fs : List (String × String)) : String :=
       | .ok s => showSub s
       | .err e => "err:" ++ e
       | .panic _ => "panic"
+    else if op == "subset.encrt" then
+      -- the property's clause on the built-in encoding after Write+Read, in OLD glyph ids: every
+      -- code keeps the glyph it selected if that glyph is retained, every other code is unused
+      -- (written from the property; the only use of the order is the writer's contiguity condition)
+      match (getField fs "order").bind (natsSep ",") with
+      | none => "bad-order"
+      | some ord =>
+        match f.encoding with
+        | none => "E@-"
+        | some e =>
+          let e' := e.map fun g => (idxIn ord g).getD 0
+          if !encodingContiguous e' then "err:encoding" else
+          "E@" ++ showCMapEntries (((List.range e.length).zip e).filter fun cg =>
+            ord.contains cg.2 && (idxIn ord cg.2).getD 0 != 0)
     else if op == "subset.mustwrite" then
       -- the property's claim "the subset can be written and read back", stated unconditionally
       match runModel f glyphs none with
